@@ -670,3 +670,5 @@ def run(L, tier):
     L.stage(r5_rejected_config, L, repo)
     from pyutil import memo_sound
     L.stage(memo_sound, L, repo, "C10.R6", ("fake_trx", "transceiver", "rand_burst_gen"))
+    from pyutil import hdr_ver_ownership
+    L.stage(hdr_ver_ownership, L, repo, "C10.R7")
